@@ -15,8 +15,9 @@ def C(ids):
     return [Coalition(int(i)) for i in ids]
 
 
-def apply_op(g: IncompleteCooperativeGame, op) -> str:
-    """Apply one op (tuple) to the implementation object; 'ok' or 'err'."""
+def apply_op(g: IncompleteCooperativeGame, op, own_comp=None) -> str:
+    """Apply one op (tuple) to the implementation object; 'ok' or 'err'. own_comp: name of the computer the object was
+    constructed with - a compute op naming it goes through the public g.compute_bounds()."""
     kind = op[0]
     try:
         if kind == "set":
@@ -48,7 +49,10 @@ def apply_op(g: IncompleteCooperativeGame, op) -> str:
         elif kind == "upper":
             g.set_upper_bound(float(op[2]), Coalition(op[1]))
         elif kind == "compute":
-            computer_fn(op[1])(g)
+            if own_comp is not None and op[1] == own_comp:
+                g.compute_bounds()
+            else:
+                computer_fn(op[1])(g)
         else:
             raise KeyError(kind)
     except (AssertionError, ValueError):
@@ -76,12 +80,13 @@ def ops_line(n: int, ops) -> str:
     return f"ops {n} {len(ops)} " + " ".join(op_tokens(o) for o in ops)
 
 
-def run_impl_history(n: int, ops):
-    """Returns list of (status, table) after each op."""
-    g = IncompleteCooperativeGame(n)
+def run_impl_history(n: int, ops, comp=None):
+    """Returns list of (status, table) after each op. With comp the object is constructed with that bounds computer
+    and compute ops naming it call the public compute_bounds() (so anything wrapped around the computer is exercised)."""
+    g = IncompleteCooperativeGame(n, computer_fn(comp)) if comp is not None else IncompleteCooperativeGame(n)
     res = []
     for o in ops:
-        st = apply_op(g, o)
+        st = apply_op(g, o, comp)
         res.append((st, table_of(g)))
     return res, g
 
